@@ -35,6 +35,9 @@ type c16Case struct {
 	// Frags, when set, makes the relay state the concatenation of these fragments of
 	// c16Fragments instead of c16Relay[Relay]
 	Frags []int `json:"fragments,omitempty"`
+	// DocElsewhere: the document was built while the other endpoint was configured (another
+	// instance, or before a metadata refresh); the page is rendered with this case's endpoint
+	DocElsewhere bool `json:"document_built_under_other_endpoint,omitempty"`
 }
 
 // c16Fragments are the pieces an injection is assembled from; the thorough tier tries every
@@ -107,6 +110,14 @@ func c16Build(sp *saml2.SAMLServiceProvider, c c16Case) (out []byte, docBytes []
 	b := c16Builders[c.Builder]
 	p = guard(func() {
 		var doc *etree.Document
+		if c.DocElsewhere && b != "BuildAuthBodyPost" {
+			other := c16Endpoints[(c.Endpoint+1)%len(c16Endpoints)]
+			sp.IdentityProviderSSOURL, sp.IdentityProviderSLOURL = other, strings.Replace(other, "/sso", "/slo", 1)
+			defer func() {
+				sp.IdentityProviderSSOURL = c16Endpoints[c.Endpoint]
+				sp.IdentityProviderSLOURL = strings.Replace(c16Endpoints[c.Endpoint], "/sso", "/slo", 1)
+			}()
+		}
 		switch b {
 		case "BuildAuthBodyPost":
 			out, err = sp.BuildAuthBodyPost(relay)
@@ -134,6 +145,9 @@ func c16Build(sp *saml2.SAMLServiceProvider, c c16Case) (out []byte, docBytes []
 			doc.Root().CreateElement("note").SetText("ünïcödé & <markup> \"q\" + " + strings.Repeat("日本語😀", 20))
 		}
 		docBytes, _ = doc.WriteToBytes()
+		// the page is rendered under this case's endpoint
+		sp.IdentityProviderSSOURL = c16Endpoints[c.Endpoint]
+		sp.IdentityProviderSLOURL = strings.Replace(c16Endpoints[c.Endpoint], "/sso", "/slo", 1)
 		switch b {
 		case "BuildAuthBodyPostFromDocument":
 			out, err = sp.BuildAuthBodyPostFromDocument(relay, doc)
@@ -387,7 +401,7 @@ func c16Replay(raw json.RawMessage) ([]string, string) {
 }
 
 func c16Run(r *mc.Run) {
-	r.Rule = "full product relay state(33: quotes, angle brackets, script and attribute-injection payloads, ampersands, character references, newline, U+2028, backtick, backslash, template syntax, plus, comment opener, NUL, lengths 80/81/82+/2090/4800 bytes with multi-byte characters across byte 80) x builder(4) x document(3: signed, unsigned, non-ASCII) x endpoint(2: plain, with & query) x SignAuthnRequests(2, BuildAuthBodyPost), plus relay states assembled from every sequence of 2 (quick) / 2-3 (thorough) of 28 injection fragments x builder(4); oracle = a strict HTML tokenizer (anything needing browser error recovery is rejected) and a reading of the page as a browser would: exactly one form, action = the endpoint, method POST, exactly one message field inside it = base64 of exactly the document, a RelayState field iff non-empty decoding to exactly the value, no binding field anywhere else, a script that submits; and the token skeleton (every tag, attribute, attribute value, text and script except those three values) equal to the skeleton of the page the same builder makes for a plain relay state, so that nothing else can depend on the relay state or the document. non-trivial = a page was produced and tokenized; distinct = distinct case"
+	r.Rule = "full product relay state(33: quotes, angle brackets, script and attribute-injection payloads, ampersands, character references, newline, U+2028, backtick, backslash, template syntax, plus, comment opener, NUL, lengths 80/81/82+/2090/4800 bytes with multi-byte characters across byte 80) x builder(4) x document(3: signed, unsigned, non-ASCII) x endpoint(2: plain, with & query) x document built under this or under the other endpoint x SignAuthnRequests(2, BuildAuthBodyPost), plus relay states assembled from every sequence of 2 (quick) / 2-3 (thorough) of 28 injection fragments x builder(4); oracle = a strict HTML tokenizer (anything needing browser error recovery is rejected) and a reading of the page as a browser would: exactly one form, action = the endpoint, method POST, exactly one message field inside it = base64 of exactly the document, a RelayState field iff non-empty decoding to exactly the value, no binding field anywhere else, a script that submits; and the token skeleton (every tag, attribute, attribute value, text and script except those three values) equal to the skeleton of the page the same builder makes for a plain relay state, so that nothing else can depend on the relay state or the document. non-trivial = a page was produced and tokenized; distinct = distinct case"
 	var cases []c16Case
 	mc.Enumerate(-1, r.Expired, func(ch *mc.Chooser) {
 		c := c16Case{}
@@ -398,6 +412,7 @@ func c16Run(r *mc.Run) {
 			c.Sign = ch.Bool("sign")
 		} else {
 			c.Doc = ch.Choose("doc", len(c16Docs))
+			c.DocElsewhere = ch.Bool("doc-elsewhere")
 		}
 		cases = append(cases, c)
 	})
